@@ -268,6 +268,9 @@ func (g *gen) placements(p string, alloc bool) [][2]any {
 		if cpu < float64(pc.Cpu) {
 			continue
 		}
+		if pc.Claim != "" && !g.deviceFree(n) {
+			continue // the fit check's DRA filter finds no device for the claim on this node
+		}
 		if pc.Kind == "whole" {
 			if gpus >= float64(pc.Gpu) {
 				out = append(out, [2]any{n, []string{}})
@@ -294,6 +297,16 @@ func (g *gen) placements(p string, alloc bool) [][2]any {
 		}
 	}
 	return out
+}
+
+// deviceFree: the node publishes DRA devices and the session's DRA manager counts at least one of them as free
+func (g *gen) deviceFree(n string) bool {
+	k, err := freeDevices(g.r.cfg, g.r.ssn, n)
+	if err != nil {
+		g.r.fail(err)
+		return false
+	}
+	return k > 0
 }
 
 func eqGroups(a, b []string) bool {
@@ -386,8 +399,6 @@ func (g *gen) step() bool {
 					}
 				}
 				if evicted {
-					add(3, func() { r.Step(Label{N: "Unevict", P: p}) })
-					// back onto its own node / GPU: Pipeline turns into Unevict
 					home := ""
 					var homeGroups []string
 					for _, n := range sortedKeys(r.cfg.Nodes) {
@@ -397,7 +408,23 @@ func (g *gen) step() bool {
 							}
 						}
 					}
-					if home != "" {
+					// a pod with a resource claim is only put back on a node that passes the fit check (the actions reach
+					// Unevict through Pipeline, after FittingNode): idle or releasing resources for it and a device the
+					// DRA filter can give its - currently unallocated - claim
+					fits := true
+					if r.cfg.Pods[p].Claim != "" {
+						fits = false
+						for _, pl := range g.placements(p, false) {
+							if pl[0].(string) == home {
+								fits = true
+							}
+						}
+					}
+					if fits {
+						add(3, func() { r.Step(Label{N: "Unevict", P: p}) })
+					}
+					// back onto its own node / GPU: Pipeline turns into Unevict
+					if home != "" && fits {
 						add(3, func() { r.Step(Label{N: "Pipeline", P: p, Node: home, G: homeGroups}) })
 					}
 					for _, pl := range g.placements(p, false) {
